@@ -446,6 +446,73 @@ def r9(ctx, prog):
         raise AnalysisBroken('no sentinel-returning callee found in the calculateNextLocalTimeSec overrides (cron_next body not in the program?)')
 
 
+def r10(ctx, prog):
+    ctx.rule('C20.R10', 'A6 who-may-arm ("a disabled alarm never fires"): activeTimer() is called only by enable() (behind state_ == kInited), by the expiry handlers '
+             '(the timer fired, so the alarm was running) and by methods that have just established state_ == kRunning on the way — nothing re-arms an alarm that '
+             'is not running', floor=3)
+    fam = [AL] + prog.derived_classes(AL)
+    n = 0
+    for c in fam:
+        for g in prog.methods_of(c):
+            for call in g.calls():
+                if call.get('fn') != 'activeTimer':
+                    continue
+                n += 1
+                if g.short == 'onTimeExpired':
+                    ctx.ob('C20.R10', '%s|arm' % g.name, True, 'expiry handler: the timer fired, the alarm was running', where=g.loc(call['i']))
+                    continue
+                want = 'kInited' if g.short == 'enable' else 'kRunning'
+                ok = False
+                for cond, k, b in q.guards_incl_flags(g, q.pt(g, call)):
+                    for l, o, r in q.edge_rels(g, cond, k):
+                        if l.endswith('state_') and o == '==' and r.endswith(want):
+                            ok = True
+                ctx.ob('C20.R10', '%s|arm' % g.name, ok, 'arms only behind state_ == %s' % want if ok else
+                       '%s() calls activeTimer() without having established state_ == %s: it arms an alarm that is not running — a disabled (or never enabled, or '
+                       'already fired one-shot) alarm fires after this call' % (g.short, want), where=g.loc(call['i']))
+    if n < 3:
+        raise AnalysisBroken('expected >= 3 call sites of activeTimer(), found %d' % n)
+
+
+def r11(ctx, prog):
+    ctx.rule('C20.R11', 'A4 depends-on ("for any explicit time-zone offset"): whether the explicit offset or the system zone is used is decided by a flag that setTimezone() '
+             'sets to a constant, never by the value of the offset — 0 is a legal explicit offset (UTC)', floor=1)
+    f = prog.fn1(AL + '::activeTimer')
+    st_ = prog.fn1(AL + '::setTimezone')
+    par = {p_['d'] for p_ in st_.params}
+    # fields written from the parameter (the offset) and fields written with a constant (the flag)
+    from_param, const_set = set(), set()
+    for st in st_.stmts:
+        if st and st['k'] == 'BinaryOperator' and st.get('op') == '=' and st_.field_of(st['ch'][0]):
+            fq = st_.field_of(st['ch'][0])
+            if any(st_.stmts[x]['k'] == 'DeclRefExpr' and st_.stmts[x].get('d') in par for x in st_.walk(st['ch'][1])):
+                from_param.add(fq)
+            elif (st_.s(st['ch'][1]) or {}).get('cv') is not None or (st_.s(st_.strip_casts(st['ch'][1])) or {}).get('k') == 'CXXBoolLiteralExpr':
+                const_set.add(fq)
+    if not from_param:
+        raise AnalysisBroken('setTimezone: the offset field is not assigned from the parameter')
+    # the selection: a conditional (or if) in activeTimer one arm of which reads the offset field and the other calls the system-zone helper
+    sel = []
+    for st in f.stmts:
+        if st and st['k'] in ('ConditionalOperator', 'IfStmt'):
+            sub = set(f.walk(st['i']))
+            reads = any(f.stmts[x]['k'] == 'MemberExpr' and f.stmts[x].get('q') in from_param for x in sub if x not in set(f.walk(st['ch'][0])))
+            sysz = any(f.stmts[x]['k'] in q.CALL_KINDS and 'GetSystemTimezoneOffsetSeconds' in (f.stmts[x].get('callee') or '') for x in sub)
+            if reads and sysz:
+                sel.append(st)
+    if not sel:
+        raise AnalysisBroken('activeTimer: the choice between the explicit offset and the system zone was not found')
+    for st in sel:
+        cond = st['ch'][0] if st['k'] == 'ConditionalOperator' else st.get('cond', st['ch'][0])
+        cf = {f.stmts[x].get('q') for x in f.walk(cond) if f.stmts[x]['k'] == 'MemberExpr' and f.stmts[x].get('mk') == 'field'}
+        bad = cf & from_param
+        ok = bool(cf) and not bad and cf <= const_set
+        ctx.ob('C20.R11', '%s|zone-selection' % f.name, ok, 'the selection tests %s, which setTimezone() sets to a constant' % sorted(x.split('::')[-1] for x in cf) if ok else
+               ('the selection tests the offset itself (%s): setTimezone(0) — an explicit UTC — is indistinguishable from "never set" and the alarm follows the system zone'
+                % sorted(x.split('::')[-1] for x in bad)) if bad else
+               'the selection tests %s, which setTimezone() does not set to a constant' % sorted(x.split('::')[-1] for x in cf), where=f.loc(st['i']))
+
+
 def run(ctx):
     prog = extract('ALL' if ctx.tier == 'thorough' else scope_units())
     ctx.guard(r1, ctx, prog)
@@ -457,4 +524,6 @@ def run(ctx):
     ctx.guard(r7, ctx, prog)
     ctx.guard(r8, ctx, prog)
     ctx.guard(r9, ctx, prog)
+    ctx.guard(r10, ctx, prog)
+    ctx.guard(r11, ctx, prog)
     return prog
